@@ -30,17 +30,23 @@ def run(cmd, cwd, timeout, quiet=True):
 
 
 def build_coq():
-    """Returns (ok, log)."""
+    """Returns (ok, log).  First the translator: coq/Gen/SourceTables.v is rewritten from /repo's source when it differs.
+    `make -k`: a file that no longer compiles (say Proofs/SourceTables.v after a table changed in the source) does not keep
+    the rest -- the model, its extraction, the other properties' theorems -- from being built."""
+    pre = ""
+    rc, out, _ = run([sys.executable, os.path.join(ROOT, "tools", "tables.py")], ROOT, 120)
+    if rc != 0:
+        pre = "tools/tables.py failed (the tie to the source tables is broken): " + out[-600:] + "\n"
     if not os.path.exists(os.path.join(COQ, "Makefile")) or \
             os.path.getmtime(os.path.join(COQ, "_CoqProject")) > os.path.getmtime(os.path.join(COQ, "Makefile")):
-        rc, out, _ = run("coq_makefile -f _CoqProject -o Makefile", COQ, 120)
-        if rc != 0:
-            return False, out
+        rc1, out1, _ = run("coq_makefile -f _CoqProject -o Makefile", COQ, 120)
+        if rc1 != 0:
+            return False, pre + out1
     try:
-        rc, out, dt = run("timeout 3400 make -j16", COQ, 3500)
+        rc2, out2, dt = run("timeout 3400 make -k -j16", COQ, 3500)
     except subprocess.TimeoutExpired:
-        return False, "coq build timed out"
-    return rc == 0, out
+        return False, pre + "coq build timed out"
+    return rc == 0 and rc2 == 0, pre + out2
 
 
 def build_driver():
